@@ -1,11 +1,17 @@
 package main
 
 import (
+	"bytes"
+	"encoding/base64"
+	"net/url"
+	"strings"
+
 	"context"
 	"crypto/x509"
 	"encoding/json"
 	"errors"
 	"fmt"
+	"golang.org/x/crypto/ocsp"
 	"io"
 	"math/big"
 	"net/http"
@@ -41,7 +47,7 @@ var revChainCache sync.Map
 
 // buildRevChain builds (and caches) a valid chain of n certificates whose non-root
 // certificates name the given sources. noCRLSign[i]: certificate i (an issuer) lacks cRLSign.
-func buildRevChain(purp string, slots []certSlots, noCRLSign map[int]bool, bigSerial map[int]bool) *revChain {
+func buildRevChain(purp string, slots []certSlots, noCRLSign map[int]bool, bigSerial map[int]int) *revChain {
 	n := len(slots) + 1
 	key := fmt.Sprintf("%s|%v|%v|%v", purp, slots, noCRLSign, bigSerial)
 	if v, ok := revChainCache.Load(key); ok {
@@ -60,13 +66,12 @@ func buildRevChain(purp string, slots []certSlots, noCRLSign map[int]bool, bigSe
 			p.certs[i].spec.CRL = append(p.certs[i].spec.CRL, u)
 		}
 		p.certs[i].spec.Freshest = slots[i].Freshest
-		if bigSerial[i] {
-			b := make([]byte, 300)
-			for j := range b {
-				b[j] = byte(7*j + 1)
-			}
+		if n := bigSerial[i]; n > 0 {
+			// n octets 0x7f 0xff 0xff ...: in base64 mostly '/' characters, each of which triples when URL-escaped, so
+			// that 60 octets give a request below 255 characters in base64 and above it once escaped
+			b := bytes.Repeat([]byte{0xff}, n)
 			b[0] = 0x7f
-			p.certs[i].spec.Serial = new(big.Int).SetBytes(b[:20]) // x509 limits serials to 20 octets
+			p.certs[i].spec.Serial = new(big.Int).SetBytes(b)
 		}
 	}
 	for i := 1; i < n; i++ {
@@ -179,7 +184,7 @@ func runRevCaseFull(c *revCase) (string, string, map[string]any, []certOut, bool
 				}
 			}
 			if h != nil {
-				rt.handlers[u] = h
+				rt.handlers[u] = strictOCSP(h, cert, issuer)
 			}
 			ocspTerms = append(ocspTerms, fmt.Sprintf("(%d, %s)", urlIDs.id([]byte(u)), term))
 		}
@@ -519,6 +524,48 @@ func crlFaultHandler(kind string, issuer *Cert) rtHandler {
 		return func(*http.Request) (*http.Response, error) { return httpBody(200, der) }
 	}
 	return func(*http.Request) (*http.Response, error) { return httpBody(503, nil) }
+}
+
+// strictOCSP: a responder that answers only well-formed requests for the certificate it is responsible for, as real
+// responders do: GET with the request in the last path segment (at most 255 octets, RFC 5019 section 5) or POST with
+// the application/ocsp-request media type; anything else is refused before the behaviour h is consulted.
+func strictOCSP(h rtHandler, cert, issuer *Cert) rtHandler {
+	return func(req *http.Request) (*http.Response, error) {
+		var der []byte
+		switch req.Method {
+		case http.MethodGet:
+			p := req.URL.EscapedPath()
+			seg := p[strings.LastIndex(p, "/")+1:]
+			if len(seg) > 255 {
+				return httpBody(414, []byte("request URI too long"))
+			}
+			un, err := url.QueryUnescape(seg)
+			if err != nil {
+				return httpBody(400, []byte("bad escape"))
+			}
+			if der, err = base64.StdEncoding.DecodeString(un); err != nil {
+				return httpBody(400, []byte("bad base64"))
+			}
+		case http.MethodPost:
+			if req.Header.Get("Content-Type") != "application/ocsp-request" {
+				return httpBody(415, []byte("unsupported media type"))
+			}
+			if req.Body != nil {
+				der, _ = io.ReadAll(req.Body)
+			}
+		default:
+			return httpBody(405, []byte("method not allowed"))
+		}
+		r, err := ocsp.ParseRequest(der)
+		if err != nil {
+			return httpBody(400, []byte("malformed request"))
+		}
+		want, err := ocsp.CreateRequest(cert.X, issuer.X, &ocsp.RequestOptions{Hash: r.HashAlgorithm})
+		if err != nil || !bytes.Equal(want, der) {
+			return httpBody(400, []byte("request is not for the certificate this responder serves"))
+		}
+		return h(req)
+	}
 }
 
 // faultCache: a crl.Cache that misses, fails, or serves a stale (expired) bundle
